@@ -164,6 +164,10 @@ def attempt(item, env, slice_args=None):
         else:
             res = build(item["node"], env, memo)
         outcome = "returned"
+        if item["kind"] == "binary" and item["node"][0] == "join":
+            other = env.leaves[item["node"][2][1]]
+            if not ({t.qualified_name for t in other.columns} <= {t.qualified_name for t in res.columns}):
+                outcome = "returned-without-joining"
     except Exception as e:  # noqa: BLE001
         outcome = type(e).__name__
         if outcome == "RelationalAlgebraError" and "row order" in str(e):
